@@ -282,13 +282,13 @@ def run_context(rec, rng, tier, script=None, ctx=None):
     """Generate (or replay) one context; returns the JSON-able script."""
     replaying = script is not None
     if not replaying:
-        ctx = {"kind": rng.choice(("call", "block", "block")), "n": rng.choice((0, 1, 2, 3)), "m": rng.choice((1, 2)), "hk": rng.choice((1, 2, 3))}
+        ctx = {"kind": rng.choice(("call", "block", "block")), "n": rng.choice((0, 1, 2, 3)), "m": rng.choice((1, 2)), "hk": rng.choice((1, 2, 3)), "extra": rng.choice(([], [], [], [5], [1, 2])), "opts": rng.choice(({}, {}, {}, {"z": 1}))}
         nchecks = rng.choice((1, 2, 3, 3, 4, 5, 6))
         script = []
     else:
         nchecks = len(script)
     holder = real.Holder(ctx.get("hk", 2))
-    args = {"n": ctx["n"], "m": ctx["m"], "h": holder} if ctx["kind"] == "call" else {}
+    args = real.call_args_model(ctx["n"], ctx["m"], holder, ctx.get("extra", ()), ctx.get("opts")) if ctx["kind"] == "call" else {}
     out = {"ctx": ctx, "script": script}
 
     def body():
@@ -375,7 +375,7 @@ def run_context(rec, rng, tier, script=None, ctx=None):
             single, variadic = s1, v1
 
     if ctx["kind"] == "call":
-        real.in_call_context(ctx["n"], ctx["m"], body, holder)
+        real.in_call_context(ctx["n"], ctx["m"], body, holder, *ctx.get("extra", ()), **ctx.get("opts", {}))
     else:
         real.in_block_context(body)
     return out
